@@ -1001,6 +1001,16 @@ pub fn execute(scn: &W1Scn, run_dir: &str) -> RunOutcome {
     ex.run_dir = run_dir.to_string();
     let v = ex.run(&scn.ops);
     let mut stats = std::mem::take(&mut ex.stats);
+    // distinct short operation prefixes (reach measure for the dense small-alphabet corner)
+    {
+        let mut h = Fnv::new();
+        h.u64(scn.cfg.ticks[0] as u64);
+        h.u64(scn.cfg.trading0 as u64);
+        for op in scn.ops.iter().take(4) {
+            h.bytes(serde_json::to_string(op).unwrap_or_default().as_bytes());
+            stats.prefix_digests.push(h.0);
+        }
+    }
     stats.sim_time = ex.models[0].t - scn.cfg.t0.min(ex.models[0].t);
     let mut h = Fnv::new();
     for o in &ex.prev {
